@@ -20,9 +20,9 @@ def rule_r1(ctx):
     for rr in ctx.rules:
         if rr.id == "C13.R4":
             rr.id = "C17.R1"
-    r = ctx.rule("C17.R1b", "T1", "overflow-free bounds: a capacity test of the header functions is either the sum form "
-                 "(len + m_header_len) > sizeof(m_header_buf), or a subtraction sizeof(buf) - len that is dominated by a test "
-                 "len <= sizeof(buf)", floor=2)
+    r = ctx.rule("C17.R1b", "T1", "overflow-free bounds: a capacity test of the header functions compares the caller's length with the "
+                 "room that is left (sizeof(buf) - m_header_len), or uses a sum / a subtraction of the length only behind a test "
+                 "len <= sizeof(buf): (len + m_header_len) > sizeof(buf) on its own wraps for a length near SIZE_MAX", floor=2)
     prog = ctx.prog
     for name in ("nni_msg_header_append", "nni_msg_header_insert"):
         f = prog.need(name, "core/message.c")
@@ -36,9 +36,25 @@ def rule_r1(ctx):
             subs = [n for n in walk(c) if n.get("k") == "bin" and n["op"] == "-"]
             sums = [n for n in walk(c) if n.get("k") == "bin" and n["op"] == "+" and "m_header_len" in show(n) and "len" in show(n)]
             if sums and not subs:
+                # len + m_header_len wraps for a length near SIZE_MAX: the sum form is sound only behind len <= sizeof(buf)
+                lim = {}
+                for b2id, k2, c2, v2 in G.edge_facts(f):
+                    if c2.get("k") == "bin" and c2["op"] in (">", "<=") and c2["lhs"].get("k") == "var" and \
+                            c2["rhs"].get("k") in ("sizeof", "int") and ((c2["op"] == "<=") == v2):
+                        lim[b2id] = k2
                 ok = True
-                r.ob(f, "capacity test in sum form: %s" % show(c)[:70])
+                if lim and G.dominated(f, (b.id, 0), lim):
+                    r.ob(f, "capacity test in sum form behind a limit on the length: %s" % show(c)[:70])
+                else:
+                    ctx.fail(r, f, "capacity test adds a caller-supplied length", f.line_of(b.id, 0),
+                             "%s tests %s: the sum is computed in size_t and wraps for a length near SIZE_MAX, so the oversized "
+                             "write is accepted (nng_msg_header_append(m, p, SIZE_MAX - 3) on a 4-byte header returns 0 and "
+                             "copies); compare the length with the room that is left instead" % (name, show(c)[:70]))
             for s_ in subs:
+                if s_["rhs"].get("k") == "mem" and s_["rhs"]["f"] == "m_header_len" and s_["lhs"].get("k") in ("sizeof", "int"):
+                    ok = True       # sizeof(buf) - m_header_len: the header length never exceeds the buffer (R1)
+                    r.ob(f, "capacity test compares the length with the room left: %s" % show(c)[:70])
+                    continue
                 # need a dominating guard: subtrahend <= minuend
                 guard = {}
                 for b2id, k2, c2, v2 in G.edge_facts(f):
